@@ -238,13 +238,34 @@ def run_adhist(tape, out):
         prev_cols = None
         scales = []
         shapes = []
+        open_rows = []      # rows added since the adaptation round was (re)started
         for r in range(rounds):
             if r and tape.chance('restart_adaptation', 1, 6):
                 # init_state() starts the adaptation over: one (unscaled) distance again
                 node.init_state()
                 scales = []
                 prev_cols = None
+                open_rows = []
                 out.probes['adaptation_restarted'] += 1
+            if tape.chance('abandoned_sampler', 1, 6):
+                # a sampler on this node is started and abandoned mid-run (an exception in the
+                # simulator, an interrupt, or simply iterate() without ever finishing): starting
+                # it began a new round, and the rows it consumed stay in that round until
+                # somebody starts another one
+                bs_a = tape.int('abandoned_bs', 1, 6)
+                wl_a = {'method': 'rejection', 'batch_size': bs_a,
+                        'seed': tape.int('abandoned_seed', 0, 2 ** 20), 'n_samples': 3,
+                        'output_names': [], 'objective': {'n_sim': 60}}
+                ab = sr.SamplerRun(tape, out, spec, wl_a, sr.REFERENCE_SCHED, model=model,
+                                   quiet=True)
+                open_rows = []
+                ab.sampler.set_objective(3, n_sim=60)
+                for _ in range(tape.int('abandoned_after', 1, 4)):
+                    ab.sampler.iterate()
+                for (_, _, b_) in ab.consumed:
+                    open_rows.append(np.column_stack([np.asarray(b_[s_]) for s_ in spec['sums']]))
+                del ab
+                out.probes['sampler_abandoned_mid_round'] += 1
             if tape.chance('sampler_round', 1, 5):
                 # this round is done by an adaptive Rejection run on the same node (the sampler
                 # adds the data and updates the distance itself); rounds done by hand before
@@ -270,12 +291,14 @@ def run_adhist(tape, out):
                 if np.any(exp_scale == 0):
                     out.inconclusive = True
                     return
+                open_rows = []
                 shapes.append(('sampler', len(rows)))
                 out.probes['sampler_round_between_hand_rounds'] += 1
             else:
                 # update_distance starts a new round itself; an explicit init is optional
                 if tape.chance('explicit_init', 1, 2):
                     node.init_adaptation_round()
+                    open_rows = []
                 n_rows = tape.int('rows', 4, 40)
                 # the gain multiplies location and spread alike (|mean|/std stays moderate, so the
                 # running-variance recurrence is well conditioned; tiny and huge scales are legal)
@@ -293,7 +316,7 @@ def run_adhist(tape, out):
                     bystander_step()
                     node.add_data(*[d_[a:b] for d_ in data])
                 bystander_step()
-                full = np.column_stack(data)
+                full = np.vstack(open_rows + [np.column_stack(data)])
                 exp_scale = full.std(axis=0)
                 got_scale = np.asarray(node.state['scale'])
                 if got_scale.shape != exp_scale.shape or \
@@ -302,6 +325,7 @@ def run_adhist(tape, out):
                                 expected=exp_scale.tolist())
                     return
                 node.update_distance()
+                open_rows = []
             scales.append(exp_scale)
             if r < rounds - 1 and tape.chance('round_without_evaluation', 1, 3):
                 # the distance is not evaluated after every round
